@@ -73,6 +73,7 @@ type Exec struct {
 	Trace   []string // only when Opts.Trace
 
 	aborted  bool
+	frozen   bool // no more alternatives are offered to the explorer (default schedule from here on)
 	abortG   *G
 	finished chan struct{}
 	objs     map[any]*obj
@@ -308,7 +309,7 @@ func (e *Exec) schedule() {
 	}
 	next := first
 	idx := 0
-	if n > 1 {
+	if n > 1 && !e.frozen {
 		idx = e.nextChoice(n)
 		if idx > 0 {
 			k := 0
@@ -347,7 +348,7 @@ func (e *Exec) schedule() {
 // Choose is a data choice point with n alternatives (0 is the default).
 func Choose(n int, what string) int {
 	e := cur
-	if e == nil || e.aborted || n <= 1 {
+	if e == nil || e.aborted || n <= 1 || e.frozen {
 		return 0
 	}
 	g := e.cur
@@ -495,6 +496,16 @@ func QuiesceAll() {
 				me.h = mix(me.h, o.h)
 			}
 		}
+	}
+}
+
+// Freeze ends the explored part of an execution: from here on the default schedule is
+// followed and no alternatives are offered to the explorer. Scenarios call it once the phase
+// the property quantifies over is finished (e.g. before tearing the harness down), which keeps
+// deviation budgets for the part that matters.
+func Freeze() {
+	if e := cur; e != nil {
+		e.frozen = true
 	}
 }
 
